@@ -79,7 +79,7 @@ func decFsm(_ any, data []byte) (any, bool) {
 
 func init() {
 	register(&codec{
-		name: "fsm_cmd", weight: 10,
+		name: "fsm_cmd", weight: 10, rawShare: 30,
 		gen: func(r *rand.Rand) (any, string) {
 			v := fsmVal{Kind: vh.Pick(r, "noop", "upsert_user", "upsert_user", "create_user", "upsert_device", "upsert_device")}
 			v.User = metadb.User{UID: randStr(r, 10), Token: randStr(r, 12), DeviceFlag: genI64(r), DeviceLevel: genI64(r)}
@@ -110,13 +110,16 @@ func init() {
 		rawHint: func(r *rand.Rand) []byte {
 			types := fsm.VerifCommandTypes()
 			t := types[r.IntN(len(types))]
-			if vh.Chance(r, 0.2) {
+			switch x := r.IntN(10); {
+			case x < 6: // the modelled commands: their per-field length guards are compared with the model
+				t = vh.Pick(r, fsmConst("cmdTypeUpsertUser"), fsmConst("cmdTypeCreateUser"), fsmConst("cmdTypeUpsertDevice"), fsmConst("cmdTypeNoop"))
+			case x < 8:
 				t = uint8(r.UintN(256))
 			}
 			b := []byte{vh.Pick(r, uint8(1), 1, 1, 1, 0, 2), t}
 			for i := r.IntN(3); i > 0; i-- { // a few well-formed fields
-				val := vh.Bytes(r, vh.Pick(r, 0, 1, 8, 8, 3))
-				b = append(b, byte(1+r.IntN(6)), 0, 0, 0, byte(len(val)))
+				val := vh.Bytes(r, vh.Pick(r, 0, 1, 8, 8, 3, 7, 9))
+				b = append(b, byte(1+r.IntN(5)), 0, 0, 0, byte(len(val)))
 				b = append(b, val...)
 			}
 			return b
